@@ -54,6 +54,15 @@ Theorem c29_unsub_partial : forall l p ch,
 Proof. exact unsub_at_quiescence_partial. Qed.
 Print Assumptions c29_unsub_partial.
 
+(* and for the loop body executed as ONE lock region (no release of m.mtx between
+   the incSessions pass and the sweep) the full statement holds for all
+   histories: this is the repaired design *)
+Theorem c29_unsub_atomic_pass : forall l p ch,
+  let s := lrun linit (expand l) in
+  lquiescent s -> In p (l_started s) -> nsubs ch (l_ch s) = 0%nat -> told (l_wire s) p ch = false.
+Proof. exact unsub_at_quiescence_atomic_pass. Qed.
+Print Assumptions c29_unsub_atomic_pass.
+
 (* non-vacuity *)
 Example c29_opener_nonvacuous :
   opens (fun x => x) [1; 2] [1; 3] = true /\ opens (fun x => x) [1; 3] [1; 2] = false.
